@@ -84,7 +84,7 @@ pub fn main_clip(args: &[String]) -> i32 {
     // ---------------- Part A
     if !cases_path.is_empty() {
         let f = std::fs::File::open(&cases_path).expect("cases");
-        let embs = [Embedding::new(1.0, [0.0; 3]), Embedding::new(0.1, [-17.25, 3.5, 0.7])];
+        let embs = [Embedding::new(1.0, [0.0; 3]), Embedding::new(0.1, [-17.25, 3.5, 0.7]), Embedding::new(2f64.powi(-40), [0.0; 3])];
         for line in std::io::BufReader::new(f).lines() {
             let line = line.unwrap();
             if line.trim().is_empty() {
